@@ -352,6 +352,7 @@ class SpecEval:
         name = node.args[0].value
         rty = T.parse_ty(node.args[1].value)
         args = [self.ev(a) for a in node.args[2:]]
+        args = [(O.coerce(a, T.STR if O.STRLIT_MODE[0] == "text" else T.OPAQUE) if O.is_strlit(a) else a) for a in args]
         return apply_uf(name, rty, args)
 
     def fn_typed(self, node):
